@@ -1423,6 +1423,17 @@ Section Editor.
       end
     end.
 
+  (* list mode, first step: the span becomes the longest common prefix of the candidates when that is longer than
+     the span (or there is exactly one candidate) *)
+  Definition list_span_step (start : nat) (cands : list str) : E unit :=
+    edo s <- eget;
+    match lcp_all cands with
+    | Some lcp =>
+      if Nat.ltb (pos (e_line s) - start) (blen lcp) || Nat.eqb (length cands) 1
+      then completer_update start lcp ;;; refresh_line else eret tt
+    | None => eret tt
+    end.
+
   Definition complete_line (fuel : nat) : E (option cmd) :=
     edo s <- eget;
     let '(start, cands) := c_complete cfg (buf (e_line s)) (pos (e_line s)) in
@@ -1434,12 +1445,7 @@ Section Editor.
         edo mark <- changes_begin;
         complete_circular fuel start cands (buf (e_line s), pos (e_line s)) mark 0
       | CTList =>
-        (match lcp_all cands with
-         | Some lcp =>
-           if Nat.ltb (pos (e_line s) - start) (blen lcp) || Nat.eqb (length cands) 1
-           then completer_update start lcp ;;; refresh_line else eret tt
-         | None => eret tt
-         end) ;;;
+        list_span_step start cands ;;;
         if Nat.ltb 1 (length cands) then
           beep ;;;
           edo c <- next_cmd fuel true;
